@@ -55,9 +55,9 @@ where
 
         let low_ptype_bits: u8 = reader.read_bits(5)?;
         let mut r#type = if low_ptype_bits & 0x10 != 0 {
-            PictureTypeCode::IFrame
-        } else {
             PictureTypeCode::PFrame
+        } else {
+            PictureTypeCode::IFrame
         };
 
         if low_ptype_bits & 0x08 != 0 {
